@@ -227,6 +227,11 @@ func decodeCalendarDataReq(calendarData *calendarDataReq) (*CalendarCompRequest,
 }
 
 func (h *Handler) handleQuery(r *http.Request, w http.ResponseWriter, query *calendarQuery) error {
+	selection := internal.PropFind{Prop: query.Prop, AllProp: query.AllProp, PropName: query.PropName}
+	if err := selection.Validate(); err != nil {
+		return err
+	}
+
 	var q CalendarQuery
 	if query.Prop != nil {
 		var calendarData calendarDataReq
@@ -274,6 +279,11 @@ func (h *Handler) handleQuery(r *http.Request, w http.ResponseWriter, query *cal
 }
 
 func (h *Handler) handleMultiget(ctx context.Context, w http.ResponseWriter, multiget *calendarMultiget) error {
+	selection := internal.PropFind{Prop: multiget.Prop, AllProp: multiget.AllProp, PropName: multiget.PropName}
+	if err := selection.Validate(); err != nil {
+		return err
+	}
+
 	var dataReq CalendarCompRequest
 	if multiget.Prop != nil {
 		var calendarData calendarDataReq
